@@ -193,7 +193,7 @@ Definition char_ops (c : N) : list op :=
   else if is_c0 c || is_c1 c then [OExec c]
   else [OPrint c].
 
-Lemma char_good c :
+Lemma char_good_plain c :
   scalar_ok c = true -> char_introducer c = false -> good (utf8_enc c) (char_ops c).
 Proof.
   intros Hs Hc. unfold char_introducer in Hc.
@@ -205,6 +205,19 @@ Proof.
   unfold utf8_list in G. cbn [flat_map] in G. rewrite app_nil_r in G.
   unfold char_ops, ts in *. destruct ((c =? 127) || (c =? 156)); [exact G|].
   destruct (is_c0 c || is_c1 c); exact G.
+Qed.
+
+Lemma opens_sequence_introducer c : opens_sequence c = char_introducer c.
+Proof. reflexivity. Qed.
+
+Lemma char_good c :
+  scalar_ok c = true ->
+  good (utf8_enc (if opens_sequence c then 65533 else c))
+       (if char_introducer c then [OPrint 65533] else char_ops c).
+Proof.
+  intros Hs. rewrite opens_sequence_introducer. destruct (char_introducer c) eqn:E.
+  - exact (char_good_plain 65533 eq_refl eq_refl).
+  - apply char_good_plain; assumption.
 Qed.
 
 (* ---------- OSC: title ---------- *)
